@@ -502,6 +502,8 @@ var vpTemplates = []string{
 	/* 49 */ "if k then\n \x01 = 0\n \x02 = 1\nend\nfunction add(n)\n \x01 = n + 1\n do \x02 = n end\nend\nfunction reset() \x01 = 0 end\ng = \x01 + \x02\n",
 	// a chained call used as a statement, with multi-line callbacks in every link
 	/* 50 */ "local \x03 = 0\no:next(function(\x01)\n local \x02 = \x01\n return \x02 + \x03\nend):next(function(\x02)\n return \x02 + \x03\nend):catch(function(\x01)\n g = \x01\nend)\n",
+	// computed table keys that are compound expressions: names read only there
+	/* 51 */ "local \x01, \x02, \x03 = \"p\", 1, 2\nlocal t = { [\x01 .. \"k\"] = 1, [\x02 + 1] = 2, [-\x03] = 3, [(\x04)] = 4, [#\x05] = 5, [not \x06] = 6 }\ng = t\n",
 }
 
 // vpInstantiate fills the holes of template t with symbolic names; tag prefixes the variable names.
